@@ -189,9 +189,18 @@ def explore(ctx):
         pw = [hc.program_wake_check(ctx, tg, wd, n=32, ohm=500.0, current=2e-3, steps=100),
               hc.program_wake_check(ctx, tg, wd, n=48, ohm=150.0, current=5e-3, steps=400, pqsize=10.0)]
         ctx.extra["program_level_wake"] = pw
-        for cfg in cfgs:
-            rec = he.run_config(tg, cfg, wd, 600 if ctx.quick() else 3000)
-            out.append(he.judge(ctx, cfg, rec))
+        if ctx.quick():
+            for cfg in cfgs:
+                rec = he.run_config(tg, cfg, wd, 600)
+                out.append(he.judge(ctx, cfg, rec))
+        else:
+            # thorough: the runs (and the reference runs they need) side by side, judged afterwards
+            res = he.run_many(tg, cfgs, wd, 3000, jobs=8, log=ctx.log)
+            for cfg in cfgs:
+                rec, ref = res.get(he.cfg_name(cfg)), res.get(he.cfg_name(he.reference_config(cfg)))
+                if not isinstance(rec, dict) or not isinstance(ref, dict):
+                    raise RuntimeError("long run %s failed: %r" % (he.cfg_name(cfg), rec if not isinstance(rec, dict) else ref))
+                out.append(he.judge(ctx, cfg, rec, ref=ref))
     finally:
         shutil.rmtree(wd, ignore_errors=True)
     ctx.extra["explored_long_run"] = out
